@@ -40,6 +40,18 @@ def cases(rng, tier):
             pass
         out.append({"id": f"f{k}", "family": "fortran", "method": m, "tag": "fortran-family",
                     "variants": ["plain", "perm1", "perm2", "perm3", "after-other"]})
+    # hand-made: several user-type temporaries first mentioned by ONE statement (a call with two results) and used last
+    # by ONE statement - the order of their release calls then comes from a set / dict order if nothing sorts it
+    V = fc.V
+    for k, names in enumerate((["v1", "v2"], ["w", "v1"], ["v2", "w"], ["lo", "hi"], ["hi2", "a7"], ["zz", "b"])):
+        prog = [["stmt", ["call", ["k1"], "<func>rhs", [V("<t>"), V("<state>y")], []]],
+                ["stmt", ["call", names, "<func>split", [V("k1")], []]],
+                ["stmt", ["assign", "<state>y", None, ["+", [V("<state>y"), V(names[0]), V(names[1])]], []]],
+                ["stmt", ["yield", V("<state>y"), V("<t>"), "final", "y"]]]
+        m = {"phases": [{"name": "p0", "next": "p0", "prog": prog}], "initial": "p0", "y0": [1, 2, -1], "exact": False,
+             "k0": 0, "t0": 0, "dt": 0.5, "runs": 2}
+        out.append({"id": f"s{k}", "family": "fortran", "method": m, "tag": "fortran-two-results",
+                    "variants": ["plain", "perm1", "perm2", "perm3", "after-other"]})
     for k in range(n_p):
         c = c01.g_case(rng)
         c.update({"id": f"p{k}", "family": "python", "tag": "python-family",
